@@ -79,7 +79,7 @@ class Canon:
         if ty == "bool":
             return "1" if p.ident() == "true" else "0"
         if ty == "String":
-            return "s" + (p.string().hex() or "")
+            return "s" + (p.string().hex() or "-")
         if ty.startswith("Token <"):
             p.lit("Token("); n = p.number_text(); p.lit(")")
             return "t" + n
